@@ -617,7 +617,7 @@ fn directed(idx: usize) -> Option<(Vec<FeatSpec>, Vec<AEv>)> {
 
 fn gen_case(rng: &mut Rng, canonical: bool, force: Option<fn(&mut Rng, &mut usize) -> WX>, mon: Mon, idx: usize) -> Case {
     let dir = if mon == Mon::None { None } else { directed(idx) };
-    let specs = match &dir { Some((s, _)) => s.clone(), None => gen_catalog_specs(rng, 3) };
+    let specs = match &dir { Some((s, _)) => s.clone(), None => gen_catalog_specs_twins(rng, 3) };
     let cat = Rc::new(Cat::new(&specs));
     let mut nl = 0;
     let wx = match force {
